@@ -12,6 +12,7 @@ import (
 	"pgregory.net/rapid"
 
 	"verif/gen"
+	"verif/hist"
 	"verif/refenc"
 )
 
@@ -40,6 +41,8 @@ type SynthEv struct {
 	Kind      int
 	DB, Table string
 	SQL       string
+	QueryDB   string    `json:",omitempty"`
+	Charset   *[3]int32 `json:",omitempty"`
 	TS        int64
 	Values    [][]SynthCol
 	Idents    [][]SynthCol
@@ -76,7 +79,10 @@ func (s *SynthTx) build() *gobinlog.Transaction {
 		return out
 	}
 	for _, e := range s.Events {
-		ev := &gobinlog.StreamEvent{Type: gobinlog.StatementType(e.Kind), Table: gobinlog.NewMysqlTableName(e.DB, e.Table), Timestamp: e.TS, Query: replication.Query{SQL: e.SQL}}
+		ev := &gobinlog.StreamEvent{Type: gobinlog.StatementType(e.Kind), Table: gobinlog.NewMysqlTableName(e.DB, e.Table), Timestamp: e.TS, Query: replication.Query{SQL: e.SQL, Database: e.QueryDB}}
+		if e.Charset != nil {
+			ev.Query.Charset = &replication.Charset{Client: e.Charset[0], Conn: e.Charset[1], Server: e.Charset[2]}
+		}
 		ev.RowValues = rows(e.Values)
 		ev.RowIdentifies = rows(e.Idents)
 		if ev.RowValues == nil && !e.NilValues {
@@ -304,7 +310,16 @@ func checkTxJSON(tx *gobinlog.Transaction) error {
 			if utf8.ValidString(e.Query.SQL) && sql != e.Query.SQL {
 				return fmt.Errorf("%s: sql %q, want %q", w, sql, e.Query.SQL)
 			}
-			continue
+			if len(e.RowValues) == 0 && len(e.RowIdentifies) == 0 {
+				continue
+			}
+			// an event that carries rows keeps every column in the document, statement text or not
+			if _, ok := em["rowValues"]; !ok && len(e.RowValues) > 0 {
+				return fmt.Errorf("%s: the event has %d row(s) of values (and statement text %q) but the document has no rowValues", w, len(e.RowValues), e.Query.SQL)
+			}
+			if _, ok := em["rowIdentifies"]; !ok && len(e.RowIdentifies) > 0 {
+				return fmt.Errorf("%s: the event has %d identifying row(s) (and statement text %q) but the document has no rowIdentifies", w, len(e.RowIdentifies), e.Query.SQL)
+			}
 		}
 		rv, p1 := em["rowValues"]
 		ri, p2 := em["rowIdentifies"]
@@ -356,7 +371,8 @@ func hostileString(rt *rapid.T, label string) string {
 	case 0:
 		return ""
 	case 1:
-		return rapid.SampledFrom([]string{"a\"b", "back\\slash", "<script>&amp;</script>", "\x00\x01\x1f", "  ", "tab\there\nnl\r", "'quoted'", "\xff\xfe invalid", "ok \xc3\x28", "😀"}).Draw(rt, label)
+		return rapid.SampledFrom([]string{"a\"b", "back\\slash", "<script>&amp;</script>", "\x00\x01\x1f", "  ", "tab\there\nnl\r", "'quoted'", "\xff\xfe invalid", "ok \xc3\x28", "😀",
+			"\ufffd", "caf\ufffd au lait", "x\ufffdy \u00e9\u00e8", "\u00e9t\u00e9", "\u2028\u2029", "\u0080\u009f", "\ufeffbom"}).Draw(rt, label)
 	case 2:
 		return string(rapid.SliceOfN(rapid.Byte(), 0, 20).Draw(rt, label))
 	default:
@@ -368,6 +384,9 @@ func drawSynth(rt *rapid.T) *SynthTx {
 	s := &SynthTx{NowFile: hostileString(rt, "now_file"), NextFile: hostileString(rt, "next_file"), NowOff: rapid.Int64().Draw(rt, "now_off"), NextOff: rapid.Int64Range(0, 1<<32).Draw(rt, "next_off"),
 		TS: rapid.Int64Range(0, 1<<32).Draw(rt, "ts"), NilEvents: rapid.Bool().Draw(rt, "nil_events")}
 	ne := rapid.IntRange(0, 4).Draw(rt, "nev")
+	if rapid.IntRange(0, 11).Draw(rt, "long_tx") == 0 {
+		ne = rapid.SampledFrom([]int{33, 63, 64, 65, 100, 129, 257, 600}).Draw(rt, "nev_long")
+	}
 	typeCodes := []int{}
 	for k := range docTypeName {
 		typeCodes = append(typeCodes, k)
@@ -377,6 +396,9 @@ func drawSynth(rt *rapid.T) *SynthTx {
 	rows := func(label string) [][]SynthCol {
 		var out [][]SynthCol
 		nr := rapid.IntRange(0, 3).Draw(rt, label+"_nr")
+		if ne <= 4 && rapid.IntRange(0, 19).Draw(rt, label+"_many_rows") == 0 {
+			nr = rapid.SampledFrom([]int{64, 100, 300}).Draw(rt, label+"_nr_many")
+		}
 		for r := 0; r < nr; r++ {
 			var row []SynthCol
 			nc := rapid.IntRange(0, 4).Draw(rt, label+"_nc")
@@ -400,6 +422,16 @@ func drawSynth(rt *rapid.T) *SynthTx {
 		e := SynthEv{Kind: rapid.IntRange(-1, 14).Draw(rt, "kind"), DB: hostileString(rt, "db"), Table: hostileString(rt, "table"), TS: rapid.Int64Range(0, 1<<32).Draw(rt, "ev_ts")}
 		if rapid.Bool().Draw(rt, "is_sql") {
 			e.SQL = hostileString(rt, "sql")
+			e.QueryDB = hostileString(rt, "query_db")
+			if rapid.Bool().Draw(rt, "has_charset") {
+				cs := func(l string) int32 {
+					if rapid.Bool().Draw(rt, l+"_common") {
+						return rapid.SampledFrom([]int32{8, 33, 45, 63, 255, 5, 47, 48, 224, 83, 0}).Draw(rt, l)
+					}
+					return int32(rapid.IntRange(0, 65535).Draw(rt, l))
+				}
+				e.Charset = &[3]int32{cs("cs_client"), cs("cs_conn"), cs("cs_server")}
+			}
 		} else {
 			e.Values = rows("values")
 			e.Idents = rows("idents")
@@ -416,14 +448,38 @@ func TestC20(t *testing.T) {
 	o := gen.DefaultHistOpt(limits(), false)
 	o.BigBase = false
 	o.Scale = false
+	o.ScaleTx = true
 	rapidCheck(t, func(rt *rapid.T) {
 		if rapid.IntRange(0, 2).Draw(rt, "part") == 0 {
 			c := drawE2E(rt, o)
+			rq := false
+			if rapid.IntRange(0, 5).Draw(rt, "rows_query") == 0 {
+				// a master with binlog_rows_query_log_events=ON: the statement text stands in front of the
+				// table maps.  Whether the replica refuses such a stream or accepts it, what it delivers
+				// must serialise with every column
+				for ui := range c.H.Units {
+					u := &c.H.Units[ui]
+					for ii := range u.Items {
+						if u.Items[ii].Kind == hist.IRows {
+							q := hist.Item{Kind: hist.IUnknownEvent, EvType: refenc.EvRowsQuery, Body: refenc.RowsQueryBody("INSERT INTO t VALUES (" + hostileString(rt, "rows_query_text") + ")"), TS: u.Items[ii].TS}
+							u.Items = append(u.Items[:ii], append([]hist.Item{q}, u.Items[ii:]...)...)
+							rq = true
+							break
+						}
+					}
+					if rq {
+						break
+					}
+				}
+			}
 			st, _, _, err := runE2E(c)
 			if err != nil {
 				rt.Skip(err.Error())
 			}
 			rec.Case(len(st.got) > 0, c, "end-to-end")
+			if rq {
+				rec.Class("e2e-with-rows-query-event")
+			}
 			for k, tx := range st.got {
 				rec.Class("e2e-transactions")
 				if err := checkTxJSON(tx); err != nil {
